@@ -6,12 +6,19 @@ FXVanillaOption.value/delta/fast_delta, the module-level fast_delta, the strike 
 forward at par = 0, premium views, call - put = forward (partial: t_exp = t_del; counterexample), FOR/DOM symmetry,
 the four quoted deltas = derivatives, strike-from-delta returns the delta (closed forms; solver given its postcondition),
 DOM-notional forward = FOR-notional forward on N/K (since /repo d214945).
+Growth round (Props/C10e..h, Lemmas/C10): module fast_delta = the class's delta dictionary, relations between the four
+conventions, delta parity and FOR/DOM symmetry of deltas / vega / gamma, solve_for_strike as a left inverse + monotonicity
+and uniqueness of the strike, no zero-vol / zero-time branch and the limits of the closed form (discounted forward
+intrinsic, not spot intrinsic), the inline gamma / vega / theta of the class = the bs_* kernels, FX digital call + put,
+premium-currency relabelling, forward worth zero only at the forward.
 Correspondence: the implementation (classes and compiled functions) vs the Float instantiation of the same generated
 code (Driver/C10) on every key of value(...), delta(...), FXForward.forward/value, fast_delta, g, solve_for_strike.
 Direct oracles on the implementation (the executable reading of the property), every run: CIP with the harness's own
 delivery date, forward at par, call - put = forward value at the strike (own-curve and through FXForward), FOR/DOM
 symmetry through a reciprocal DOM/FOR option with the curves exchanged, premium views, each delta vs central
-differences of the reported value, delta_bump, strike solved from a delta returns that delta.
+differences of the reported value, delta_bump, strike solved from a delta returns that delta (through fast_delta and
+through FXVanillaOption.delta), zero / tiny volatility and expiry = valuation date (parity, discounted forward intrinsic,
+finiteness), a re-used FXForward under other curves, FX digital call + put.
 """
 import datetime
 import json
@@ -29,7 +36,7 @@ from props import c05 as K5  # noqa: E402   (noise model of the Hull N for bump 
 
 GEN = ['BSF', 'BSR', 'BSP', 'FXF', 'FXR', 'FXP']
 PROPS = ['FinVerif.Props.C10t', 'FinVerif.Props.C10a', 'FinVerif.Props.C10b', 'FinVerif.Props.C10c', 'FinVerif.Props.C10d',
-         'FinVerif.Props.C10w']
+         'FinVerif.Props.C10e', 'FinVerif.Props.C10f', 'FinVerif.Props.C10g', 'FinVerif.Props.C10h', 'FinVerif.Props.C10w']
 # modules whose theorems STATE a known defect (they stop building when it is repaired): module -> (finding, oracle clause)
 DEFECT_PROPS = {'FinVerif.Props.C10w': ('C10/forward-cash-double-notional', 'forward:cash')}
 DRIVERS = ['FinVerif.Driver.C10']
@@ -164,7 +171,7 @@ def viol(ctx, what, case, clause, finding=None):
 
 def run(ctx):
     drivers_ok = C.lean_stage(ctx, GEN, PROPS, DRIVERS,
-                              extra_files=['FinVerif/Lemmas/C05.lean', 'FinVerif/Spec/C05.lean', 'FinVerif/Spec/C10.lean',
+                              extra_files=['FinVerif/Lemmas/C05.lean', 'FinVerif/Lemmas/C10.lean', 'FinVerif/Spec/C05.lean', 'FinVerif/Spec/C10.lean',
                                            'FinVerif/Props/C05a.lean', 'FinVerif/Props/C05b.lean', 'FinVerif/Props/C05c.lean'])
     C.import_financepy()
     from financepy.utils.date import Date
@@ -172,6 +179,7 @@ def run(ctx):
     from financepy.market.curves.discount_curve import DiscountCurve
     from financepy.products.fx.fx_vanilla_option import FXVanillaOption, fast_delta
     from financepy.products.fx.fx_forward import FXForward
+    from financepy.products.fx.fx_digital_option import FXDigitalOption
     from financepy.products.fx.fx_mkt_conventions import FinFXDeltaMethod
     from financepy.market.volatility.fx_vol_surface import solve_for_strike, g as g_obj
     from financepy.models.black_scholes import BlackScholes
@@ -179,12 +187,32 @@ def run(ctx):
     from financepy.utils.math import norminvcdf
 
     OT = {1: OptionTypes.EUROPEAN_CALL, 2: OptionTypes.EUROPEAN_PUT}
+    DT = {5: OptionTypes.DIGITAL_CALL, 6: OptionTypes.DIGITAL_PUT}
+    assert all(DT[k].value == k for k in DT)
     quick = ctx.quick()
     rng = ctx.rng('main')
     n_cases = 1800 if quick else 9000
     corr = Corr(ctx)
+    rx = ctx.rng('extra')       # draws of the oracles added later (own stream: the 'main' cases stay what they were)
     cnt = {k: 0 for k in ['cip', 'par0', 'fwdval', 'parity', 'parity_nt', 'cross', 'sym', 'views', 'delta', 'delta_inf',
-                          'bump', 'dates', 'texp_ne_tdel']}
+                          'bump', 'dates', 'texp_ne_tdel', 'fwd_reuse', 'cls_round', 'cls_noconv', 'digi']}
+    METH = {1: FinFXDeltaMethod.SPOT_DELTA, 2: FinFXDeltaMethod.FORWARD_DELTA, 3: FinFXDeltaMethod.SPOT_DELTA_PREM_ADJ,
+            4: FinFXDeltaMethod.FORWARD_DELTA_PREM_ADJ}
+    assert all(METH[m].value == m for m in METH)
+
+    def solve_strike(S_, t_, rd_, rf_, ty_, tg_, m_, vol_, case):
+        """solve_for_strike, a raise classified exactly as in the strike section below (known solver divergence only if
+        the harness's replay of the documented secant recursion on target - fast_delta does not converge either)"""
+        try:
+            return float(solve_for_strike(S_, t_, rd_, rf_, ty_, tg_, m_, vol_))
+        except Exception as e:  # noqa: BLE001
+            rep = secant_replay(lambda x: tg_ - float(fast_delta(S_, t_, x, rd_, rf_, vol_, m_, ty_)), S_)
+            fnd = F_SOLVER if (m_ in (3, 4) and err_kind(e) == 'E:FinError' and rep[0] != 'converged'
+                               and str(e.args[0] if e.args else e) in ('Tolerance reached', 'Failed to converge')) else None
+            viol(ctx, 'solve_for_strike raised for a delta quoted by FXVanillaOption.delta at a strike within 1.2 std-devs of the forward',
+                 {**case, 'method': m_, 'target': tg_, 'error': repr(e)[:200], 'secant_replay': rep[0]},
+                 'strike-from-delta:defined', finding=fnd)
+            return None
     PAIRS = [('EUR', 'USD'), ('USD', 'JPY'), ('GBP', 'USD'), ('AUD', 'JPY'), ('USD', 'ZAR')]
 
     def make_curve(vd, r, kind, rr):
@@ -412,6 +440,30 @@ def run(ctx):
                 viol(ctx, 'call - put != FXForward(strike).value (unit foreign notional)',
                      {**base, 'call': c_, 'put': p_, 'FXForward.value': fv1, 't_exp': t_exp, 't_del(option)': t_del,
                       't_delivery(forward)': t_fwd}, 'parity:cross-class', finding=fnd)
+            # ---- re-use of an FXForward: `fw` has just answered under (dom, forc); under OTHER curves at the SAME valuation
+            # date and spot it must obey CIP with THOSE curves and give what a fresh object gives, and asked again under the
+            # first curves it must repeat its first answer (nothing may be carried between calls)
+            if ci % 3 == 0:
+                dom3 = make_curve(vd, max(-0.02, min(0.20, r_d + rx.choice([-0.012, 0.017]))), kind, rx)
+                for3 = make_curve(vd, max(-0.02, min(0.20, r_f + rx.choice([-0.015, 0.011]))), kind, rx)
+                cnt['fwd_reuse'] += 3
+                F3 = float(fw.forward(vd, S, dom3, for3))
+                F3_spec = S * float(for3.df_t(tfc)) / float(dom3.df_t(tfc))
+                v3 = [float(fw.value(vd, S, dom3, for3)[k]) for k in FWD_KEYS]
+                fresh = FXForward(ed, K, pair, 1.0, fccy, sd)
+                f3 = [float(fresh.value(vd, S, dom3, for3)[k]) for k in FWD_KEYS]
+                rcase = {**base, 'second_r_d': float(-math.log(float(dom3.df_t(1.0)))), 'second_r_f': float(-math.log(float(for3.df_t(1.0)))),
+                         'forward_first_curves': F_impl, 'forward_second_curves': F3, 'cip_second_curves': F3_spec}
+                if not abs(F3 - F3_spec) <= 1e-12 * F3_spec:
+                    viol(ctx, 'a re-used FXForward asked under other curves (same date) does not return spot * df_for / df_dom of THOSE curves',
+                         rcase, 'reuse:forward-cip')
+                if v3 != f3:
+                    viol(ctx, 'a re-used FXForward valued under other curves (same date) differs from a fresh object',
+                         {**rcase, 'reused': v3, 'fresh': f3, 'keys': FWD_KEYS}, 'reuse:forward-fresh-object')
+                F1b = float(fw.forward(vd, S, dom, forc))
+                if F1b != F_impl:
+                    viol(ctx, 'FXForward.forward asked again under the first curves does not repeat its first answer',
+                         {**rcase, 'forward_first_curves_again': F1b}, 'reuse:forward-repeat')
         except Exception as e:  # noqa: BLE001
             viol(ctx, 'FXForward raised inside the domain', {**base, 'error': repr(e)[:200]}, 'defined-on-domain:forward')
 
@@ -493,6 +545,88 @@ def run(ctx):
                 viol(ctx, 'delta_bump differs from the central difference of the reported value', {**bcase, 'tol': tolb + errV},
                      'delta=bump:delta_bump=central')
 
+        # ---- gamma / vega / theta of the class (inline closed forms: ONE time t_exp, rates implied at max(t_exp, 1e-10)) and
+        # the FX digital: correspondence with the generated kernels; digital cash call + put = notional x df (DOM premium)
+        if ci % 2 == 0:
+            tec = max(t_exp, 1e-10)
+            dde, fde = float(dom.df_t(tec)), float(forc.df_t(tec))
+            rde, rfe = -math.log(dde) / tec, -math.log(fde) / tec
+            sse, kke = S * math.exp(-rfe * tec), K * math.exp(-rde * tec)
+            we = max(vol, 1e-10) * math.sqrt(tec)
+            for nm, sc in (('gamma', 0.4 * sse / (S * S * we)), ('vega', 0.4 * sse * math.sqrt(tec))):
+                try:
+                    impl = [float(getattr(opt[1], nm)(vd, S, dom, forc, model))]
+                except Exception as e:  # noqa: BLE001
+                    impl = err_kind(e)
+                    viol(ctx, f'FXVanillaOption.{nm} raised inside the domain', {**base, 'error': repr(e)[:200]}, f'defined-on-domain:{nm}')
+                corr.add(f'FXVanillaOption.{nm}', f'{nm} ' + fl([t_exp, S, dde, fde, K, vol]), impl, [sc], base)
+            for ty in (1, 2):
+                try:
+                    impl = [float(opt[ty].theta(vd, S, dom, forc, model))]
+                except Exception as e:  # noqa: BLE001
+                    impl = err_kind(e)
+                    viol(ctx, 'FXVanillaOption.theta raised inside the domain', {**base, 'ty': ty, 'error': repr(e)[:200]}, 'defined-on-domain:theta')
+                corr.add('FXVanillaOption.theta', 'theta ' + fl([t_exp, S, dde, fde, K, vol]) + f' {ty}', impl,
+                         [(sse + kke) * (max(vol, 1e-10) / math.sqrt(tec) + abs(rde) + abs(rfe))], base)
+            dg = {}
+            for dty in (5, 6):
+                try:
+                    dopt = FXDigitalOption(ed, K, pair, DT[dty], notional, prem, sd)
+                    dg[dty] = float(dopt.value(vd, S, dom, forc, model))
+                    impl = [dg[dty]]
+                except Exception as e:  # noqa: BLE001
+                    impl = err_kind(e)
+                    viol(ctx, 'FXDigitalOption.value raised inside the domain', {**base, 'digital_type': dty, 'error': repr(e)[:200]},
+                         'defined-on-domain:digital')
+                corr.add('FXDigitalOption.value', 'digi ' + fl([t_del, t_exp, S, dd_, fd_, K, notional, vol]) + f' {dty} {pc} {DOM} {FOR}',
+                         impl, [notional * (dd_ if prem_is_dom else S * fd_)], base)
+            if len(dg) == 2:
+                cnt['digi'] += 1
+                unit = notional * (dd_ if prem_is_dom else S * fd_)
+                if not abs(dg[5] + dg[6] - unit) <= 4e-9 * unit:
+                    viol(ctx, 'FX digital call + digital put != notional x discounted unit of the premium currency',
+                         {**base, 'digital_call': dg[5], 'digital_put': dg[6], 'expected_sum': unit}, 'digital:call+put=df')
+
+        # ---- strike from a delta QUOTED BY THE CLASS returns that delta (all four conventions): the delta dictionary of
+        # FXVanillaOption.delta is the definition, solve_for_strike the inverse, the class again the check.  Only where the
+        # option time is the delivery time (then the class's forward conventions are the solver's, Props/C10e) and in the
+        # region where the secant postcondition of the strike section was calibrated.
+        if ci % 4 == 1 and t_exp == tdc and 0.02 <= vol <= 0.6 and t_exp >= 2.0 / 365 and abs(math.log(K / Fo)) <= 1.2 * sdv:
+            for ty in (1, 2):
+                for m in (1, 2, 3, 4):
+                    tg = float(dels[ty][DELTA_KEYS[m - 1]])
+                    if not (1e-3 * math.exp(-rf_i * t_exp) < abs(tg)):
+                        continue
+                    if m in (1, 2):
+                        arg = tg * (1 if ty == 1 else -1) / (math.exp(-rf_i * t_exp) if m == 1 else 1.0)
+                        if not (1e-6 < arg < 1 - 1e-6):
+                            continue
+                    rc_case = {**base, 'ty': ty, 'r_d(implied)': rd_i, 'r_f(implied)': rf_i, 't': t_exp}
+                    Ks = solve_strike(S, t_exp, rd_i, rf_i, ty, tg, m, vol, rc_case)
+                    if Ks is None:
+                        cnt['cls_noconv'] += 1
+                        continue
+                    cnt['cls_round'] += 1
+                    if m in (1, 2):
+                        tol = (2.5 * E0 + 3e-9) * math.exp(-rf_i * t_exp) * (math.exp(rf_i * t_exp) if m == 2 else 1.0)
+                    else:
+                        hk = abs(Ks) * 1e-5
+                        slope = abs(float(fast_delta(S, t_exp, Ks + hk, rd_i, rf_i, vol, m, ty))
+                                    - float(fast_delta(S, t_exp, Ks - hk, rd_i, rf_i, vol, m, ty))) / (2 * hk) if hk > 0 else 0.0
+                        tol = 3e-7 * slope + 2.5 * E0 * (1 + math.exp(rf_i * t_exp)) + 1e-9
+                    back = None
+                    if Ks > 0:
+                        try:
+                            o2 = FXVanillaOption(ed, Ks, pair, OT[ty], notional, prem, sd)
+                            back = float(o2.delta(vd, S, dom, forc, model)[DELTA_KEYS[m - 1]])
+                        except Exception as e:  # noqa: BLE001
+                            back = repr(e)[:120]
+                    if not (isinstance(back, float) and abs(back - tg) <= tol + 1e-9 * abs(tg)):
+                        viol(ctx, 'strike solved from a delta quoted by FXVanillaOption.delta does not return that delta '
+                                  '(FXVanillaOption.delta at the solved strike)',
+                             {**rc_case, 'method': m, 'key': DELTA_KEYS[m - 1], 'target_delta': tg, 'solved_strike': Ks,
+                              'class_delta_at_solved_strike': back, 'tol': tol}, f'strike-from-delta:class-method{m}')
+
     ctx.count('O:delivery date = expiry + spot-day lag (own weekday arithmetic)', cnt['dates'], sample={'cases': n_cases})
     ctx.count('O:premium views are one number', cnt['views'])
     ctx.count('O:call - put = forward value (own curves)', cnt['parity'], cnt['parity_nt'],
@@ -502,6 +636,165 @@ def run(ctx):
     ctx.count('O:FOR/DOM symmetry through the reciprocal option', 2 * cnt['sym'])
     ctx.count('O:deltas = central-difference derivatives', cnt['delta'], cnt['delta_inf'])
     ctx.count('O:delta_bump', cnt['bump'])
+    ctx.count('O:re-used FXForward under other curves (CIP, fresh object, repeat)', cnt['fwd_reuse'])
+    ctx.count('O:strike from a class-quoted delta returns it through FXVanillaOption.delta (4 conventions)', cnt['cls_round'],
+              sample={'solver_raised_no_convergence': cnt['cls_noconv']})
+    ctx.count('O:FX digital call + put = discounted unit', cnt['digi'])
+
+    # ====================================================================== degenerate corners of the quantifier: zero /
+    # tiny volatility (BlackScholes(0.0) is accepted by the library) and expiry = valuation date / next day.  As coded there
+    # is no separate branch (Props/C10g: vanilla_value_vol_below_clamp, vanilla_value_time_below_clamp); the limit of the
+    # closed form as vol -> 0 is the DISCOUNTED FORWARD intrinsic max(+-(S df_for - K df_dom), 0)
+    # (zero_vol_limit_is_forward_value_intrinsic), not the spot intrinsic.  Oracles: defined and finite, correspondence,
+    # call - put = forward value (own curves and through FXForward), value within the time-value bound of the discounted
+    # forward intrinsic, FOR/DOM symmetry.
+    rz = ctx.rng('degenerate')
+    n_z = 300 if quick else 1500
+    cz = {k: 0 for k in ['cases', 'parity', 'intrinsic', 'cross', 'sym', 'finite', 'vol0', 'today']}
+    for zi in range(n_z):
+        pyd = datetime.date(2016, 1, 1) + datetime.timedelta(days=rz.randrange(0, 3650))
+        vd = Date(pyd.day, pyd.month, pyd.year)
+        days = rz.choice([0, 0, 1, 1, 2, 7, 30, 182, 365, 1826, 3650])
+        if days <= 1 and rz.random() < 0.35:
+            vol = math.exp(rz.uniform(math.log(0.01), math.log(1.0)))        # ordinary volatility, expiry today / tomorrow
+        else:
+            vol = rz.choice([0.0, 0.0, 1e-12, 1e-6, 1e-4])
+        sd = rz.choice([0, 0, 1, 2, 3])
+        ed = vd.add_days(days)
+        py_ed = pyd + datetime.timedelta(days=days)
+        py_del = own_add_weekdays(py_ed, sd)
+        py_spot = own_add_weekdays(pyd, sd)
+        t_exp = days / 365.0
+        t_del = ((py_del - py_spot).days) / 365.0
+        t_fwd = ((py_del - pyd).days) / 365.0
+        S = math.exp(rz.uniform(math.log(0.005), math.log(500.0)))
+        r_d, r_f = rz.uniform(-0.02, 0.20), rz.uniform(-0.02, 0.20)
+        kind = 'flat' if rz.random() < 0.5 else 'pillar'
+        dom = make_curve(vd, r_d, kind, rz)
+        forc = make_curve(vd, r_f, kind, rz)
+        tdc = max(t_del, 1e-10)
+        dd_, fd_ = float(dom.df_t(tdc)), float(forc.df_t(tdc))
+        rd_i, rf_i = -math.log(dd_) / tdc, -math.log(fd_) / tdc
+        Fo = S * fd_ / dd_
+        u = rz.random()
+        if u < 0.55:
+            K = Fo * math.exp(rz.uniform(-0.5, 0.5))
+        elif u < 0.70:
+            K = Fo
+        elif u < 0.80:
+            K = S
+        elif u < 0.90:
+            K = Fo * (1.0 + rz.choice([-1, 1]) * rz.choice([1e-12, 1e-9, 1e-6]))
+        else:
+            K = S * (1.0 + rz.choice([-1, 1]) * rz.choice([1e-9, 1e-4]))
+        notional = rz.choice([1.0, 1.0e6])
+        fccy, dccy = rz.choice(PAIRS)
+        pair = fccy + dccy
+        prem_is_dom = rz.random() < 0.5
+        prem = dccy if prem_is_dom else fccy
+        pc = DOM if prem_is_dom else FOR
+        model = BlackScholes(vol)
+        base = {'value_dt': str(vd), 'expiry_days': days, 'spot_days': sd, 'spot': S, 'strike': K, 'r_d': r_d, 'r_f': r_f,
+                'curves': kind, 'vol': vol, 'pair': pair, 'prem_ccy': prem, 'notional': notional, 't_exp': t_exp, 't_del': t_del}
+        cz['cases'] += 1
+        cz['vol0'] += (vol == 0.0)
+        cz['today'] += (days == 0)
+        a_, b_ = S * fd_, K * dd_                                # the discounted legs at the option's own delivery time
+        vsc = a_ + b_
+        vals, dels = {}, {}
+        for ty in (1, 2):
+            try:
+                o = FXVanillaOption(ed, K, pair, OT[ty], notional, prem, sd)
+                r = o.value(vd, S, dom, forc, model)
+                vals[ty] = r
+                impl = [float(r[k]) for k in VALUE_KEYS]
+            except Exception as e:  # noqa: BLE001
+                impl = err_kind(e)
+                viol(ctx, 'FXVanillaOption.value raised at zero / tiny volatility or expiry = valuation date',
+                     {**base, 'ty': ty, 'error': repr(e)[:200]}, 'defined-on-domain:value-degenerate')
+            nd = notional if prem_is_dom else notional * K
+            nf = notional / K if prem_is_dom else notional
+            corr.add('FXVanillaOption.value (9 keys), zero vol / zero time',
+                     'val ' + fl([t_del, t_exp, S, dd_, fd_, K, notional, vol]) + f' {ty} {pc} {DOM} {FOR}', impl,
+                     [vsc, vsc * nf, vsc * nf / S, vsc, vsc / (S * K), vsc / K, vsc / S, nd, nf], base)
+            try:
+                r = o.delta(vd, S, dom, forc, model)
+                dels[ty] = r
+                impl = [float(r[k]) for k in DELTA_KEYS]
+            except Exception as e:  # noqa: BLE001
+                impl = err_kind(e)
+                viol(ctx, 'FXVanillaOption.delta raised at zero / tiny volatility or expiry = valuation date',
+                     {**base, 'ty': ty, 'error': repr(e)[:200]}, 'defined-on-domain:delta-degenerate')
+            dq = math.exp(-rf_i * max(t_exp, 1e-12))
+            corr.add('FXVanillaOption.delta (4 keys), zero vol / zero time',
+                     'delta ' + fl([t_del, t_exp, S, dd_, fd_, K, vol]) + f' {ty}', impl,
+                     [dq, dq / fd_, dq + vsc / S, (dq + vsc / S) / fd_], base)
+        if len(vals) < 2 or len(dels) < 2:
+            continue
+        # every reported number is finite (no division by a zero total volatility, no NaN delta)
+        cz['finite'] += 1
+        bad = [(ty, k) for ty in (1, 2) for k in VALUE_KEYS if not math.isfinite(float(vals[ty][k]))] \
+            + [(ty, k) for ty in (1, 2) for k in DELTA_KEYS if not math.isfinite(float(dels[ty][k]))]
+        if bad:
+            viol(ctx, 'value / delta reports a non-finite number at zero / tiny volatility or expiry = valuation date',
+                 {**base, 'non_finite_keys': bad[:6]}, 'defined-on-domain:finite-degenerate')
+            continue
+        c_, p_ = float(vals[1]['v']), float(vals[2]['v'])
+        as_a, as_b = S * math.exp(-rf_i * max(t_exp, 1e-12)), K * math.exp(-rd_i * max(t_exp, 1e-12))   # the legs as coded
+        ptol = 4e-9 * vsc + 1e-9 * vsc
+        # call - put = value of the forward at the strike (own curves)
+        cz['parity'] += 1
+        res = (c_ - p_) - (a_ - b_)
+        if not abs(res) <= ptol:
+            fnd = F_PARITY if (t_exp != tdc and abs((c_ - p_) - (as_a - as_b)) <= ptol) else None
+            viol(ctx, 'call - put != S df_for - K df_dom (value of the forward at the strike) at zero / tiny volatility',
+                 {**base, 'call': c_, 'put': p_, 'forward_value': a_ - b_, 'residual': res, 'as_coded(rates at t_del, time t_exp)': as_a - as_b},
+                 'parity:call-put=forward', finding=fnd)
+        # value -> discounted forward intrinsic as the total volatility -> 0: time value <= 0.4 w min(a, b) (attained at the
+        # money forward), w = max(vol, 1e-10) sqrt(max(t_exp, 1e-12)) as coded
+        w_ = max(vol, 1e-10) * math.sqrt(max(t_exp, 1e-12))
+        for ty, got in ((1, c_), (2, p_)):
+            sgn = 1.0 if ty == 1 else -1.0
+            intr = max(sgn * (a_ - b_), 0.0)
+            itol = 0.4 * w_ * min(a_, b_) + ptol
+            cz['intrinsic'] += 1
+            if not abs(got - intr) <= itol:
+                intr_c = max(sgn * (as_a - as_b), 0.0)
+                fnd = F_PARITY if (t_exp != tdc and abs(got - intr_c) <= 0.4 * w_ * min(as_a, as_b) + ptol) else None
+                viol(ctx, 'value at (near-)zero total volatility is not the discounted forward intrinsic max(+-(S df_for - K df_dom), 0) '
+                          'within the time-value bound',
+                     {**base, 'ty': ty, 'value': got, 'discounted_forward_intrinsic': intr, 'spot_intrinsic': max(sgn * (S - K), 0.0),
+                      'time_value_bound': itol, 'total_vol': w_, 'as_coded_intrinsic(rates at t_del, time t_exp)': intr_c},
+                     'zero-vol:value=discounted-forward-intrinsic', finding=fnd)
+        # cross-class: FXForward struck at K (unit foreign notional)
+        try:
+            fw = FXForward(ed, K, pair, 1.0, fccy, sd)
+            fv1 = float(fw.value(vd, S, dom, forc)['value'])
+            cz['cross'] += 1
+            if not abs((c_ - p_) - fv1) <= ptol:
+                fnd = None
+                if sd > 0 and (t_fwd != tdc or t_exp != tdc):
+                    fnd = F_LAG
+                elif t_exp != tdc:
+                    fnd = F_PARITY
+                viol(ctx, 'call - put != FXForward(strike).value (unit foreign notional) at zero / tiny volatility',
+                     {**base, 'call': c_, 'put': p_, 'FXForward.value': fv1, 't_delivery(forward)': t_fwd}, 'parity:cross-class',
+                     finding=fnd)
+        except Exception as e:  # noqa: BLE001
+            viol(ctx, 'FXForward raised inside the domain', {**base, 'error': repr(e)[:200]}, 'defined-on-domain:forward')
+        # FOR/DOM symmetry
+        try:
+            rec = FXVanillaOption(ed, 1.0 / K, dccy + fccy, OT[2], notional, dccy, sd)
+            pr = float(rec.value(vd, 1.0 / S, forc, dom, model)['v'])
+            cz['sym'] += 1
+            if not abs(c_ - S * K * pr) <= 1e-9 * vsc + 1e-9 * abs(c_):
+                viol(ctx, 'FOR/DOM symmetry at zero / tiny volatility: call(S,K,dom,for) != S*K*put(1/S,1/K,for,dom)',
+                     {**base, 'call': c_, 'reciprocal_put': pr, 'S*K*put': S * K * pr}, 'symmetry:for-dom')
+        except Exception as e:  # noqa: BLE001
+            viol(ctx, 'reciprocal option raised inside the domain', {**base, 'error': repr(e)[:200]}, 'defined-on-domain:reciprocal')
+    ctx.count('O:zero / tiny volatility and expiry = valuation date: defined, parity, forward intrinsic, cross-class, symmetry',
+              cz['finite'] + cz['parity'] + cz['intrinsic'] + cz['cross'] + cz['sym'], cz['intrinsic'],
+              sample={'cases': cz['cases'], 'vol_exactly_0': cz['vol0'], 'expiry=valuation_date': cz['today']})
 
     # ====================================================================== fast_delta, g, solve_for_strike, norminvcdf
     rs = ctx.rng('strike')
@@ -636,6 +929,12 @@ def run(ctx):
         'solve_for_strike: norminvcdf and newton_secant are parameters with postconditions (Phi(Ninv p) = p; |g(K)| <= tol); the '
         'postconditions are checked per case, convergence itself is not proved',
         'generated kernels cover the BlackScholes model and European option types (SABR vol and the CRR tree branches are cut)',
+        'limits (zero volatility / zero time) are proved for the closed form with the clamps removed, under Phi -> 1 at +inf and '
+        'Phi -> 0 at -inf; the coded function itself is constant below its clamps (vol 1e-10, t_exp 1e-12: theorems) and equals the '
+        'closed form above them (theorem); uniqueness of the strike needs Phi strictly increasing (pips) / monotone positive '
+        '(premium-adjusted puts); for premium-adjusted calls the delta is not monotone in the strike and no uniqueness is claimed',
+        'gamma / vega / theta of the class imply their rates at t_exp: they are derivatives of value / delta only when t_exp = t_del '
+        '(partial theorems); the dead guard `np.any(vol) < 0.0` of those methods is dropped by exact text',
     ]
     return C.finish(ctx, 'proof',
                     'lake build ' + ' '.join(PROPS) + ' && lake env lean .cache/audit/Audit_C10.lean',
